@@ -7,6 +7,7 @@ from pb_bss.distribution.mixture_model_utils import (
     log_pdf_to_affiliation
 )
 from pb_bss.distribution.utils import _ProbabilisticModel
+from pb_bss import _verif
 
 from .von_mises_fisher import VonMisesFisher, VonMisesFisherTrainer
 
@@ -145,6 +146,11 @@ class VMFMMTrainer:
                 min_concentration=min_concentration,
                 max_concentration=max_concentration,
             )
+            if _verif.ENABLED:
+                _verif.report(
+                    trainer=self, iteration=iteration, model=model,
+                    affiliation=affiliation, quadratic_form=None,
+                )
 
         return model
 
